@@ -359,4 +359,43 @@ example : GeoOK (K := ℚ) (P := Unit) (fun _ q => q = ⟨1/2, 1/2, 1/2⟩) (.le
   refine ⟨by simp only [AabbValid]; norm_num, fun q hq => ?_⟩
   subst hq; simp only [AabbMem]; norm_num
 
+/-! ## concrete composites: TriMesh (triangles) and Compound of posed cuboids -/
+
+/-- a triangle the ray is not coplanar with (the case `local_ray_intersection_with_triangle` gives up on) -/
+def RayTri (ray : Ray3 K) : Type := {tr : Triangle3 K // ¬ (triD sq tr.a tr.b tr.c ray = 0 ∧ triT sq tr.a tr.b tr.c ray = 0)}
+
+/-- **TriMesh ray cast = first hit of the union of its triangles.**  For a BVH over triangles none of which is coplanar
+with the ray, valid lane boxes containing the triangles below them, `0 ≤ max_toi ≤ MAX`, both `solid` flags, any direction
+length: the best-first traversal with the TriMesh visitor's costs (lane weight `SimdAabb::cast_local_ray`, leaf cost the
+triangle's own `cast_local_ray_and_get_normal` time) reports the FIRST parameter of `[0, max_toi]` at which the ray is on
+some triangle of the mesh, and `None` iff the segment misses every triangle. -/
+theorem trimesh_cast_firstHit (big : K) (ray : Ray3 K) (max : K) (solid : Bool)
+    (t : Tree (Aabb K) (RayTri sq ray))
+    (hg : GeoOK (fun (p : RayTri sq ray) q => @Triangle3.Mem K (fieldNum K sq) p.1 q) t) (h0 : 0 ≤ max) (hmax : max ≤ big) :
+    ∃ res, bestFirst C07.ltb (rayBoxCost sq big ray max)
+        (rayLeafCost sq big ray max
+          (fun (p : RayTri sq ray) => (@Triangle3.castLocalRayAndGetNormal K (fieldNum K sq) p.1 ray max solid).map (·.toi))) t
+        = some res ∧
+      FirstHit (fun q => ∃ pr ∈ leaves t, @Triangle3.Mem K (fieldNum K sq) pr.2.1 q) (rayPt sq ray) max (compositeToi res) :=
+  composite_cast_firstHit sq big ray max _ _ t hg h0 hmax
+    (fun p => triangle_cast_firstHit_partial sq p.1 ray max solid p.2)
+
+/-- a cuboid part of a `Compound`: non-negative half-extents, any pose -/
+def CuboidPart (K : Type) [Field K] [LinearOrder K] [IsStrictOrderedRing K] : Type :=
+  {p : Cuboid3 K × Iso3 K // 0 ≤ p.1.he.x ∧ 0 ≤ p.1.he.y ∧ 0 ≤ p.1.he.z}
+
+/-- **Compound of posed cuboids, `solid = true` = first hit of the union of the posed cuboids** (leaf cost: the part's posed
+`cast_ray`, i.e. the local cast of the inverse-transformed ray — what `RayCompositeShapeToiBestFirstVisitor` evaluates) -/
+theorem compound_cuboids_cast_firstHit (big : K) (ray : Ray3 K) (max : K)
+    (t : Tree (Aabb K) (CuboidPart K))
+    (hg : GeoOK (fun (p : CuboidPart K) q => @Cuboid3.Mem K (fieldNum K sq) p.1.1 (@Iso3.invAct K (fieldNum K sq) p.1.2 q)) t)
+    (h0 : 0 ≤ max) (hmax : max ≤ big) :
+    ∃ res, bestFirst C07.ltb (rayBoxCost sq big ray max)
+        (rayLeafCost sq big ray max
+          (fun (p : CuboidPart K) => @Cuboid3.castRay K (fieldNum K sq) big p.1.1 p.1.2 ray max true)) t = some res ∧
+      FirstHit (fun q => ∃ pr ∈ leaves t, @Cuboid3.Mem K (fieldNum K sq) pr.2.1.1 (@Iso3.invAct K (fieldNum K sq) pr.2.1.2 q))
+        (rayPt sq ray) max (compositeToi res) :=
+  composite_cast_firstHit sq big ray max _ _ t hg h0 hmax
+    (fun p => cuboid_posed_solid_firstHit sq big p.1.1 p.1.2 ray max p.2 h0 hmax)
+
 end C04
